@@ -373,7 +373,19 @@ func genRoute(r *rand.Rand, prof *profile) gRoute {
 		}
 		rt.segs = append(rt.segs, s)
 	}
+	if last := rt.segs[len(rt.segs)-1]; len(last.elems) > 0 && !last.optional && r.Intn(12) == 0 {
+		// the route spelled with a trailing slash ("/docs/", "/{id}/"): one more, empty, final segment
+		rt.segs = append(rt.segs, gSeg{inst: constInst("")})
+	}
 	return rt
+}
+
+// toggleTrailingSlash: the same path segments with the final empty segment removed, or added when there is none.
+func toggleTrailingSlash(segs []string) []string {
+	if n := len(segs); n > 0 && segs[n-1] == "" {
+		return segs[:n-1]
+	}
+	return append(segs, "")
 }
 
 // instance builds a request path that instantiates the route (with or without its optional segment).
@@ -450,6 +462,11 @@ func mutatePath(r *rand.Rand, segs []string) string {
 		}
 	case 3:
 		segs = append(segs, "") // trailing slash
+	case 13, 19:
+		// the trailing slash TOGGLED: the instance of a route that ends with a slash requested without it, any other
+		// instance with one added — a final empty segment is a segment of its own, for static routes (shortcut table
+		// and tree alike) as for any other style
+		segs = toggleTrailingSlash(segs)
 	case 4:
 		if len(segs) > 0 {
 			segs[r.Intn(len(segs))] = ""
